@@ -108,6 +108,259 @@ func verifCM(args []string) string {
 	return wire.PrintList(out)
 }
 
+// ---------------------------------------------------------------- qm: outgoing queues, explicit clock
+//
+// "turbotunnel qm <cap> <timeout> <ops>...": the histories of coq/Model/QueueConn.v [qstep]
+// (QWrite, QOutRecv, QHeldRecv, QSweep) against clientMapInner and the records' channels, with
+// chosen clock readings and no sleeping.  ClientMap.trySend / SendQueue read time.Now(), so the
+// driver performs their bodies on the inner map with the instant of the case:
+//
+//	w<addr>:<payload>@<now>  QueuePacketConn.WriteTo = copy the packet; select { case inner.SendQueue(addr, now) <- buf: default: }
+//	o<addr>@<now>            OutgoingQueue(addr) = inner.SendQueue(addr, now); non-blocking receive on it
+//	h<k>                     non-blocking receive on the k-th queue ever handed out
+//	e<now>                   inner.removeExpired(now, timeout)       (the sweeper's body)
+//
+// After every operation the whole map is printed: every live record (address, last seen, queue
+// identity, queue contents) and the identities of the closed queues.  A receive on a queue that
+// is no longer in the map answers D when the channel is closed (whatever is left in it).
+
+func verifQPrint(q [][]byte) string {
+	hx := func(p []byte) string { return "x" + wire.Hex(p) }
+	if len(q) <= 6 {
+		var l []string
+		for _, p := range q {
+			l = append(l, hx(p))
+		}
+		if len(l) == 0 {
+			return "e"
+		}
+		return strings.Join(l, "+")
+	}
+	return hx(q[0]) + "+" + hx(q[1]) + "+#" + strconv.Itoa(len(q)) + "+" + hx(q[len(q)-1])
+}
+
+func verifQM(args []string) string {
+	if len(args) < 3 {
+		return "!badcase"
+	}
+	if c, err := strconv.Atoi(args[0]); err != nil || c != queueSize {
+		return "!cap:" + strconv.Itoa(queueSize)
+	}
+	tmo, err := strconv.ParseInt(args[1], 10, 64)
+	if err != nil {
+		return "!badcase"
+	}
+	timeout := time.Duration(tmo) * time.Millisecond
+	base := time.Unix(1700000000, 0)
+	at := func(s string) (time.Time, bool) {
+		v, err := strconv.ParseInt(s, 10, 64)
+		return base.Add(time.Duration(v) * time.Millisecond), err == nil
+	}
+	inner := &clientMapInner{byAge: make([]*clientRecord, 0), byAddr: make(map[net.Addr]int)}
+	qid := map[chan []byte]int{}
+	var queues []chan []byte
+	// queues that are no longer in the map: drained once into rest (a closed channel cannot be
+	// refilled), with whether the channel was found closed
+	gone := map[int]bool{}
+	closed := map[int]bool{}
+	rest := map[int][][]byte{}
+	idOf := func(ch chan []byte) int {
+		id, ok := qid[ch]
+		if !ok {
+			id = len(queues)
+			qid[ch] = id
+			queues = append(queues, ch)
+		}
+		return id
+	}
+	// contents of a live queue, in order, left in place; ok=false when the channel is closed
+	peek := func(ch chan []byte) ([][]byte, bool) {
+		var items [][]byte
+		for {
+			select {
+			case p, ok := <-ch:
+				if !ok {
+					return items, false
+				}
+				items = append(items, p)
+				continue
+			default:
+			}
+			break
+		}
+		for _, p := range items {
+			ch <- p
+		}
+		return items, true
+	}
+	dump := func() string {
+		live := map[int]bool{}
+		type rec struct {
+			a int
+			s string
+		}
+		var recs []rec
+		for _, r := range inner.byAge {
+			id, ok := qid[r.SendQueue]
+			if !ok {
+				id = -1
+			} else {
+				live[id] = true
+			}
+			q, open := peek(r.SendQueue)
+			c := verifQPrint(q)
+			if !open {
+				c = "!closed"
+			}
+			a := int(r.Addr.(verifAddr))
+			recs = append(recs, rec{a, strconv.Itoa(a) + "." + strconv.FormatInt(int64(r.LastSeen.Sub(base)/time.Millisecond), 10) + "." + strconv.Itoa(id) + "=" + c})
+		}
+		sort.Slice(recs, func(x, y int) bool { return recs[x].a < recs[y].a })
+		var ls []string
+		for _, r := range recs {
+			ls = append(ls, r.s)
+		}
+		if len(inner.byAddr) != len(inner.byAge) {
+			ls = append(ls, "!index")
+		}
+		for a, i := range inner.byAddr {
+			if i < 0 || i >= len(inner.byAge) || inner.byAge[i].Addr != a {
+				ls = append(ls, "!index")
+				break
+			}
+		}
+		var dead []string
+		for id, ch := range queues {
+			if live[id] {
+				continue
+			}
+			if !gone[id] {
+				gone[id] = true
+				for {
+					select {
+					case p, ok := <-ch:
+						if !ok {
+							closed[id] = true
+						} else {
+							rest[id] = append(rest[id], p)
+							continue
+						}
+					default:
+					}
+					break
+				}
+			}
+			if closed[id] {
+				dead = append(dead, strconv.Itoa(id))
+			} else {
+				dead = append(dead, strconv.Itoa(id)+"!open")
+			}
+		}
+		return verifOrE(ls) + "/" + verifOrE(dead)
+	}
+	var ops []string
+	for _, f := range args[2:] {
+		ops = append(ops, wire.List(f)...)
+	}
+	var out []string
+	for _, t := range ops {
+		var res string
+		switch t[0] {
+		case 'w':
+			i := strings.LastIndexByte(t, '@')
+			j := strings.IndexByte(t, ':')
+			if i < 0 || j < 0 || j > i {
+				return "!badop"
+			}
+			a, err1 := strconv.Atoi(t[1:j])
+			p, err2 := wire.Payload(t[j+1 : i])
+			now, ok := at(t[i+1:])
+			if err1 != nil || err2 != nil || !ok {
+				return "!badop"
+			}
+			// WriteTo: copy, then trySend's body with the case's clock
+			buf := make([]byte, len(p))
+			copy(buf, p)
+			ch := inner.SendQueue(verifAddr(a), now)
+			idOf(ch)
+			select {
+			case ch <- buf:
+			default:
+			}
+			for k := range p {
+				p[k] ^= 0xa5
+			}
+			res = "n" + strconv.Itoa(len(buf))
+		case 'o':
+			parts := strings.Split(t[1:], "@")
+			if len(parts) != 2 {
+				return "!badop"
+			}
+			a, err1 := strconv.Atoi(parts[0])
+			now, ok := at(parts[1])
+			if err1 != nil || !ok {
+				return "!badop"
+			}
+			ch := inner.SendQueue(verifAddr(a), now)
+			idOf(ch)
+			select {
+			case p, ok := <-ch:
+				if ok {
+					res = "x" + wire.Hex(p)
+					for k := range p {
+						p[k] ^= 0xa5 // the receiver owns p
+					}
+				} else {
+					res = "C"
+				}
+			default:
+				res = "B"
+			}
+		case 'h':
+			k, err1 := strconv.Atoi(t[1:])
+			if err1 != nil {
+				return "!badop"
+			}
+			switch {
+			case k >= len(queues):
+				res = "B" // never handed out: not a channel anybody holds
+			case gone[k]:
+				// a discarded queue: what is left in it is not part of the property
+				if closed[k] {
+					res = "D"
+				} else {
+					res = "O"
+				}
+			default:
+				select {
+				case p, ok := <-queues[k]:
+					if ok {
+						res = "x" + wire.Hex(p)
+						for i := range p {
+							p[i] ^= 0xa5
+						}
+					} else {
+						res = "C"
+					}
+				default:
+					res = "B"
+				}
+			}
+		case 'e':
+			now, ok := at(t[1:])
+			if !ok {
+				return "!badop"
+			}
+			inner.removeExpired(now, timeout)
+			res = "-"
+		default:
+			return "!badop"
+		}
+		out = append(out, res+"/"+dump())
+	}
+	return wire.PrintList(out)
+}
+
 func TestVerifDriver(t *testing.T) {
 	if os.Getenv("VERIF_DRIVER") != "1" {
 		t.Skip("driver mode only")
@@ -115,6 +368,9 @@ func TestVerifDriver(t *testing.T) {
 	wire.Loop(func(args []string) string {
 		if len(args) >= 3 && args[0] == "cm" {
 			return verifCM(args[1:])
+		}
+		if len(args) >= 4 && args[0] == "qm" {
+			return verifQM(args[1:])
 		}
 		return "!badcase"
 	})
